@@ -48,6 +48,7 @@ func main() {
 		fmt.Fprintln(os.Stderr, "explore:", err)
 		os.Exit(2)
 	}
+	sym.DumpStepProf()
 	sum := st.Summary()
 	if *funcs {
 		sum["func_names"] = sym.SortedKeys(st.FuncsExecuted)
